@@ -132,7 +132,7 @@ def _spawn(exe, args, env, timeout=600):
 
 
 def run_batch(exe, n, tier, seed, env=None, start=0, crash_prop='C12', workers=None, chunk=None,
-              budget_s=None, label=''):
+              budget_s=None, label='', spawn_timeout=600):
     """Execute runs start..start+n-1 of a world binary over a pool of workers."""
     workers = workers or WORKERS
     env = dict(env or {})
@@ -153,7 +153,7 @@ def run_batch(exe, n, tier, seed, env=None, start=0, crash_prop='C12', workers=N
                     return
                 a, e = todo.popleft()
             while a < e:
-                rc, out, err = _spawn(exe, ['--range', str(a), str(e), '--tier', tier], env)
+                rc, out, err = _spawn(exe, ['--range', str(a), str(e), '--tier', tier], env, timeout=spawn_timeout)
                 runs, viols, states, pending = parse_output(out)
                 with lock:
                     b.runs += runs
@@ -206,7 +206,7 @@ def exec_plan(exe, lines, tier, env, crash_prop):
     with os.fdopen(fd, 'w') as f:
         f.write('\n'.join(lines) + '\n')
     try:
-        rc, out, err = _spawn(exe, ['--exec', path, '--tier', tier], env, timeout=300)
+        rc, out, err = _spawn(exe, ['--exec', path, '--tier', tier], env, timeout=3600 if (env or {}).get('ASIM_HUGE') else 300)
     finally:
         os.unlink(path)
     if rc == 'timeout':
